@@ -74,8 +74,8 @@ pub fn binary_crosscheck(sup: &mut Sup, judge_exit: bool) {
             agree += 1;
         } else if out.status == Some(0) {
             sup.infra_errors.push(format!(
-                "harness artefact: binary and in-process output differ for argv {:?} (identity {:?}); in-process hash {}, binary hash {}",
-                x["argv"], identity, x["out_hash"], h
+                "harness artefact: binary and in-process output differ (identity {:?}); in-process hash {}, binary hash {}; case saved under coverage.xcheck_mismatch_case in the evidence file",
+                identity, x["out_hash"], h
             ));
             sup.extra.insert("xcheck_mismatch_case".into(), x.clone());
         }
